@@ -72,7 +72,7 @@ class SymNum:
 
     @staticmethod
     def wrap(t):
-        return SymNum(SymNum._default_engine, t)
+        return make(SymNum._default_engine, t)
 
     # -- formatting: constant placeholders (eager f-strings in logging are harmless) --------
     def __repr__(self):
@@ -88,7 +88,7 @@ class SymNum:
 
     # -- helpers -----------------------------------------------------------------------------
     def _mk(self, t):
-        return SymNum(self.eng, t)
+        return make(self.eng, t)
 
     def is_int(self):
         return z3.is_int(self.t)
@@ -279,6 +279,15 @@ class SymNum:
         return self
 
 
+class SymInt(SymNum):
+    """A symbolic number of integer sort: additionally an instance of numbers.Integral."""
+    __slots__ = ()
+
+
+def make(eng, t):
+    return SymInt(eng, t) if z3.is_int(t) else SymNum(eng, t)
+
+
 class SymRatio:
     """num/den with a symbolic, non-zero denominator, kept lazy: comparisons with a constant or another number are
     decided by cross-multiplication after forking on the sign of the denominator, so queries stay linear."""
@@ -337,4 +346,5 @@ class SymRatio:
 
 
 numbers.Real.register(SymNum)
+numbers.Integral.register(SymInt)
 numbers.Real.register(SymRatio)
